@@ -62,9 +62,10 @@ MANIFEST = {
             "that the section holds the given values over the sub-parser's environment over its defaults, that the choice is the name written on "
             "the command line, else the name found in the merged sources, else the first subcommand in declaration order that has settings, and that "
             "an undeterminable required subcommand is an error at any depth while an optional one leaves no key and no section; exactly-one also for "
-            "the whole parse_args of the model (any command line, any number and order of options and config documents). The open findings are "
+            "the whole parse_args of the model (any command line, any number and order of options and config documents). The findings are "
             "characterised EXACTLY inside the model (which section a source loses while it is loaded on its own; what the subcommand variable of the "
-            "environment copies; which term of the parent_parsers stack leaks) and their complements are proved: a source that at no depth both names "
+            "environment copies; which entry of the parent_parsers stack counts) and their complements are proved; since the repairs F50/F51 the "
+            "environment-named and stack-leak classes are no longer excluded (C17_env_only_layer, C17_no_leak for every stack): a source that at no depth both names "
             "a subcommand and holds several sections is taken verbatim, the command line is then the precedence fold of its items (later over earlier), "
             "the result is exactly-one/complete/chosen relative to that fold, and the choice is the name of the last source that names one; a result "
             "written without its subcommand keys (dump) selects the same subcommand again when defaults/environment neither name nor configure "
@@ -83,8 +84,8 @@ MANIFEST = {
 
 F_EARLY = "C17-early-selection-drops-settings"
 F_FALSY = "C17-falsy-subcommand-name"
-F_LEAK = "C17-env-default-config-leak"
-F_ENVNAME = "C17-env-named-subcommand-resets-defaults"
+# C17-env-default-config-leak and C17-env-named-subcommand-resets-defaults were repaired in /repo (F51: 00c879c, F50: a5d1a53): the
+# reference no longer excuses those classes; a deviation of that kind is a VIOLATION unless another open class explains it
 F_MAPPING = "C17-parse-env-mapping-not-handed-on"
 F_REPARSE = "C17-dump-reparse-selects-other"
 
@@ -502,7 +503,8 @@ def install_recorder():
             # configuration), which is also the key it pushed on the parent_parsers stack
             dotted = stack[-1][0] if stack else fr["prefix"] + str(getattr(self, "subcommand", "?"))
             fr["call"]["layers"][dotted] = enc(r)
-            fr["call"]["layer_meta"][dotted] = {"fn": fn_name, "path": rec.built.by_id.get(id(self)), "ctx": stack}
+            fr["call"]["layer_meta"][dotted] = {"fn": fn_name, "path": rec.built.by_id.get(id(self)), "ctx": stack,
+                                                "defaults": bool(k.get("defaults", True))}
             return r
 
         return f
@@ -757,7 +759,7 @@ def layer_requests(spec, inp, call, seen=None):
         if meta["path"] is None or any(p is None for _, p in meta["ctx"]) or dotted not in call["layers"]:
             continue
         if seen is not None:
-            key = (tuple(meta["path"]), meta["fn"], call["single"], json.dumps(meta["ctx"]), json.dumps(call["layers"][dotted], sort_keys=True))
+            key = (tuple(meta["path"]), meta["fn"], meta.get("defaults", True), call["single"], json.dumps(meta["ctx"]), json.dumps(call["layers"][dotted], sort_keys=True))
             if key in seen:
                 continue
             seen.add(key)
@@ -770,6 +772,10 @@ def layer_requests(spec, inp, call, seen=None):
             ctx.append([key, [tree_to_wire(pn["dcf"])] if pn["dcf"] is not None else []])
         rq = {"op": "layerc", "p": pw, "E": ew, "ctx": ctx, "node": list(meta["path"]), "single": call["single"],
               "mode": "env" if meta["fn"] == "parse_env" else "dflt"}
+        if meta["fn"] == "parse_env" and not meta.get("defaults", True):
+            # the environment-only parse_env (defaults=False) that the subcommand branch of _load_env_vars asks for since fix a5d1a53,
+            # handed down by its handle_subcommands: the model's `layerEO`
+            rq["op"] = "layereo"
         out.append((rq, {"ok": canon(call["layers"][dotted])}, "layer", meta))
     return out
 
@@ -910,8 +916,6 @@ def reference(spec, inp):
             else:
                 # sources of parsers of different levels disagree: their precedence is the subject of C04
                 vals[name] = {v for _, _, v in lower}
-            if shadowed and not given:
-                hints.setdefault(path + (name,), F_ENVNAME)
             if mapping_lost and not given:
                 hints.setdefault(path + (name,), F_MAPPING)
         sub = node["sub"]
@@ -937,16 +941,11 @@ def reference(spec, inp):
                 v = sect.get(sub["dest"])
                 krank = {"dcf": 0, "envcfg": 1, "env": 2, "given": 3}[kind]
                 secs = [n for n in names if isinstance(sect.get(n), dict) and has_leaf(sect[n])]
-                if v is not None and kind in ("dcf", "envcfg") and any(len(base) <= k for k in env_named_at):
-                    # finding F_ENVNAME: the named sub-parser's default (None) for its own subcommand key is copied over this value
-                    hints[("choice", path)] = F_ENVNAME
                 if v is not None:
                     explicit.append((krank, rank if kind == "given" else 0, len(base), v))
                 elif kind == "dcf" and secs:
                     # a default config file is loaded on its own with the single-subcommand rule: it selects its first section
                     explicit.append((krank, 0, len(base), secs[0]))
-                    if any(len(base) <= k for k in env_named_at):
-                        hints[("choice", path)] = F_ENVNAME
                 for n in secs:
                     settings.setdefault(n, set()).add(idx)
             if explicit:
@@ -1050,18 +1049,6 @@ def early_selection_possible(spec, inp):
     return False
 
 
-def leak_possible(spec, inp):
-    """signature of the open finding F_LEAK: environment parsing is on, the tree has three levels of parsers and a parser
-    that has grandchildren has a default config file"""
-    if not (spec.get("default_env") or inp["kind"] == "env"):
-        return False
-    for path in all_paths(spec):
-        node = node_at(spec, path)
-        if node["dcf"] is not None and spec_depth(node) >= 2:
-            return True
-    return False
-
-
 def judge(spec, inp, res):
     """compare the real result with the reference; returns a list of (description, known-finding-id or None)"""
     ref = reference(spec, inp)
@@ -1069,7 +1056,7 @@ def judge(spec, inp, res):
     if ref[0] == "ambiguous":
         return devs, ref
     early = F_EARLY if early_selection_possible(spec, inp) else None
-    leak = F_LEAK if leak_possible(spec, inp) else None
+    leak = None   # the class of the former finding C17-env-default-config-leak is no longer excused (fix 00c879c)
     # a choice made by a lower source that the environment-named-subcommand defect resets: everything below is affected
     chint = next((v for k, v in ref[3].items() if isinstance(k, tuple) and k and k[0] == "choice"), None)
     if ref[0] == "error-any":
@@ -2043,18 +2030,17 @@ def construction_stage(ctx):
     sc2 = p2.add_subcommands()
     if sc2.dest != "subcommand" or sc2._required is not True or "subcommand" not in p2.required_args:
         problems.append("defaults of add_subcommands are not dest='subcommand', required=True")
-    for w in problems[:2]:
-        ctx.violation("construction of a subcommand tree: " + w, {"kind": "construction", "what": w})
-    ctx.count(8)
-    ctx.extra["construction_stage"] = {"checks": 8, "problems": problems}
-    # observation (minor, reported by the builder): an ALIAS equal to the subcommands dest is accepted although the NAME is rejected
     p3 = fresh()
     sc3 = p3.add_subcommands(dest="cmd")
     try:
         sc3.add_subcommand("a", fresh(), aliases=("cmd",))
-        ctx.extra["construction_stage"]["alias_equal_to_dest_accepted"] = True
+        problems.append("an alias equal to the subcommands dest is accepted (repaired by a6b5b04)")
     except ValueError:
-        ctx.extra["construction_stage"]["alias_equal_to_dest_accepted"] = False
+        pass
+    for w in problems[:2]:
+        ctx.violation("construction of a subcommand tree: " + w, {"kind": "construction", "what": w})
+    ctx.count(9)
+    ctx.extra["construction_stage"] = {"checks": 9, "problems": problems}
     return len(problems)
 
 
